@@ -14,15 +14,26 @@ for d in sorted(glob.glob(os.path.join(HERE, 'seeded', '*', 'meta.json'))):
     for c in caught:
         first = (checks[c].get('first') or '').strip()[:160]
         break
+    note = []
+    doh = v.get('demo_on_head')
+    if doh is not None and doh.get('exit') == 0:
+        note.append('demonstration passes on /repo %s + patch: no longer a break (neutralised by a later fix)' % doh.get('repo'))
+    if m.get('note'):
+        note.append(m['note'])
+    sr = v.get('seed_runs') or {}
+    own = m.get('property')
+    seeds = ['1:' + ('y' if (checks.get(own) or {}).get('caught') else 'n')] if own in checks else []
+    seeds += ['%s:%s' % (k, 'y' if (r.get(own) or {}).get('caught') else 'n') for k, r in sorted(sr.items())]
     rows.append((sid, m.get('property'), (m.get('title') or m.get('what_it_breaks') or '')[:110].replace('|', '/'),
                  (m.get('needs_to_manifest') or '')[:150].replace('|', '/').replace('\n', ' '),
-                 'yes' if v.get('demo_confirmed') else 'no', ', '.join(caught) or '-', ', '.join(missed) or '-', first.replace('|', '/')))
+                 'yes' if v.get('demo_confirmed') else 'no', ', '.join(caught) or '-', ', '.join(missed) or '-', ' '.join(seeds) or '-', first.replace('|', '/'), '; '.join(note) or ''))
 out = ['# Seeded changes (written by sub-agents that saw only the property text) and which checks catch them', '',
        'Each directory holds `patch.diff`, the sub-agent\'s `demo.py` and `meta.json` (incl. what was run here).',
        'A change is kept only after its demonstration was confirmed in a scratch worktree (fails with the patch,',
        'passes without).  "caught by" = `./check <id> --tier quick --seed 1` exits 1 against the patched tree.', '',
-       '| seeded id | property | change | needs to manifest | demo confirmed | caught by (quick) | run but missed | first violation reported |',
-       '|---|---|---|---|---|---|---|---|']
+       '"own check by seed" = the own property check of the change under VERIF_SEED 1, 2, 3 (y = exits 1).', '',
+       '| seeded id | property | change | needs to manifest | demo confirmed | caught by (quick, seed 1) | run but missed | own check by seed | first violation reported | note |',
+       '|---|---|---|---|---|---|---|---|---|---|']
 for r in rows:
     out.append('| ' + ' | '.join(str(x) for x in r) + ' |')
 n = len(rows)
